@@ -16,6 +16,7 @@ def run(chk):
     n = c26.sign_rules(chk, fx, 'C02-sign', 'C02-kind')
     chk.floor('declared numeric operator rows', n, 20)
     method_rules(chk, fx, 'C02-method')
+    sentinel_rule(chk, fx, 'C02-sentinel')
     nd = wrap_rules(chk, 'C02-wrap')
     chk.floor('narrowing dunders', nd, 2)
     # ---- the premise of the wrapper rules: results do go through the constructor of their static class
@@ -130,6 +131,29 @@ def guard_covers(fdef, cname):
             if not inside_if:
                 return False
     return True
+
+
+SENTINEL = {'find': -1, 'rfind': -1}      # Python: str/bytes.find and .rfind answer -1 when the substring does not occur (index / rindex raise instead)
+
+
+def sentinel_rule(chk, fx, RULE):
+    chk.rule(RULE, 'a builtin method that Python defines with a negative sentinel result (str / bytes `.find`, `.rfind`: -1 for "not found") is not declared to return Nat: the '
+                   'generated code wraps the result in the constructor of its static class, and Nat(-1) raises ValueError; the declared type names the sentinel (`Nat or {-1}`) or is Int')
+    rows = OT.declared_methods(fx, all_classes=True)
+    n = 0
+    for (cls, name, pyname, ret, line) in rows:
+        if pyname not in SENTINEL or cls not in ('Str', 'Bytes', 'ByteArray!', 'Str!'):
+            continue
+        n += 1
+        inst = '%s.%s' % (cls, name)
+        r = ret.replace(' ', '')
+        has_sentinel = 'v_enum' in r or r in ('Int', 'Type::Int') or 'Type::Int' in r
+        if has_sentinel:
+            chk.ok(RULE, inst, sample='%s -> %s' % (inst, ret[:60]))
+        else:
+            chk.bad(RULE, 'Context::init_builtin_classes', inst + '->Nat', '%s is declared to return `%s`, but Python\'s %s.%s returns %d when nothing is found: `"abc".%s "z"` type-checks as Nat and '
+                    'raises ValueError: Nat can\'t be negative: -1' % (inst, ret[:50], cls.lower().rstrip('!'), pyname, SENTINEL[pyname], pyname), OT.CLASSES, line)
+    chk.floor('declared methods with a negative sentinel', n, 4)
 
 
 def method_rules(chk, fx, RULE):
